@@ -56,6 +56,7 @@ namespace
     c.announce();
     ConvFn fn[] = { conv_quad, conv_tria, conv_hexa };
     ConvResult r = fn[shape](p);
+    // calibration aid (never set by the driver): C09_CALIB=<file> appends the measured rates instead of checking them
     if(const char* cal = getenv("C09_CALIB")) { FILE* f = fopen(cal, "a"); if(f) { fprintf(f, "%s c%d L%d %s nu%d om%.1f %s peak%d jit%d :", shape_names[shape], p.crs_ref, p.nlev, cyc_names[p.cyc], p.nu, p.omega, adapt_names[p.adapt], p.peak, p.jitter); for(size_t k = 0; k < r.rho.size(); ++k) fprintf(f, " %.4f(%d,%ld)", r.rho[k], r.cycles[k], r.dofs[k]); fprintf(f, "\n"); fclose(f); } return; }
     std::ostringstream os; for(size_t k = 0; k < r.rho.size(); ++k) os << (k ? " " : "") << (k + 2) << "lv:" << r.rho[k];
     const double bound = p.adapt == 2 ? rho_max_mindef : rho_max[p.cyc];
